@@ -177,6 +177,56 @@ func runAliasMode(seed int64, n int, tr *transcript) {
 				tr.emit(fmt.Sprintf("assert %d caller-buffer-unchanged-by-%s", id, what),
 					fmt.Sprintf("modified:before=%x:after=%x:key-at=%d+%d", b.snapshot, b.arr, b.off, b.n))
 			}
+			// fixed-width records read into ONE buffer: consecutive calls get the same address and the same length with
+			// different contents (whatever the tree remembers about "the last key" by reference is wrong here)
+			{
+				rec := make([]byte, 4, 16)
+				var stored []string
+				for j := 0; j < 14; j++ {
+					w := string(randBytes(r, []byte("abcd"), 4, 4))
+					copy(rec, w)
+					wl := hexLit([]byte(w))
+					wt := t.TranscriptLit(wl)
+					switch {
+					case j%3 == 0 || len(stored) == 0:
+						v := 1000 + j
+						out := safely(func() string { raw.Insert(rec, v); return "ok" })
+						tr.emit(fmt.Sprintf("ins %d %s %d", id, wt, v), out)
+						if _, ok := present[wl]; !ok {
+							stored = append(stored, w)
+						}
+						present[wl] = v
+					case j%3 == 1:
+						out := safely(func() string {
+							if v, ok := raw.Search(rec); ok {
+								return strconv.Itoa(v)
+							}
+							return "-"
+						})
+						tr.emit(fmt.Sprintf("get %d %s", id, wt), out)
+					default:
+						// delete a stored record, again through the same buffer
+						w = stored[r.Intn(len(stored))]
+						copy(rec, w)
+						wl = hexLit([]byte(w))
+						out := safely(func() string {
+							if raw.Delete(rec) {
+								return "1"
+							}
+							return "0"
+						})
+						tr.emit(fmt.Sprintf("del %d %s", id, t.TranscriptLit(wl)), out)
+						delete(present, wl)
+						for x, sw := range stored {
+							if sw == w {
+								stored = append(stored[:x], stored[x+1:]...)
+								break
+							}
+						}
+					}
+				}
+				tr.stats["alias-fixed-width-records"]++
+			}
 			for step := 0; step < 60; step++ {
 				lit := u.next(r)
 				if r.Intn(4) == 0 {
